@@ -46,7 +46,7 @@ func resolveAll(sys resolve.System, text string) bool {
 			if n++; n > 4 {
 				return ok
 			}
-			g, err := r.Resolve(context.Background(), v.VersionKey)
+			g, err := r.Resolve(callCtx, v.VersionKey)
 			if err == nil && g != nil {
 				ok = true
 				_ = g.String()
@@ -116,6 +116,7 @@ func hostileUniverse(sysName string) *rapid.Generator[string] {
 				}
 				for k, l := 0, rapid.IntRange(0, 3).Draw(t, "ni"); k < l; k++ {
 					dt := ""
+					fwd := ""
 					switch sysName {
 					case "pypi":
 						if rapid.IntRange(0, 1).Draw(t, "hasenv") == 0 {
@@ -141,14 +142,23 @@ func hostileUniverse(sysName string) *rapid.Generator[string] {
 					case "npm":
 						switch rapid.IntRange(0, 5).Draw(t, "ndt") {
 						case 0:
-							dt = "KnownAs " + rapid.SampledFrom([]string{"a", "zz", "b"}).Draw(t, "alias") + "|"
+							// see known finding npm-alias-cycle-nontermination: aliased
+							// requirements are generated acyclic (forward only)
+							if i < n-1 {
+								dt = "KnownAs " + rapid.SampledFrom([]string{"yy", "zz"}).Draw(t, "alias") + "|"
+								fwd = names[rapid.IntRange(i+1, n-1).Draw(t, "aliastarget")]
+							}
 						case 1:
 							dt = "Scope " + rapid.SampledFrom([]string{"peer", "bundle", "x"}).Draw(t, "scope") + "|"
 						case 2:
 							dt = rapid.SampledFrom([]string{"Dev|", "Opt|", "Opt Dev|"}).Draw(t, "flags")
 						}
 					}
-					sb.WriteString("\t\t" + dt + rapid.SampledFrom(append(names, "missing")).Draw(t, "in") + "@" + reqOf() + "\n")
+					target := rapid.SampledFrom(append(names, "missing")).Draw(t, "in")
+					if fwd != "" {
+						target = fwd
+					}
+					sb.WriteString("\t\t" + dt + target + "@" + reqOf() + "\n")
 				}
 			}
 		}
